@@ -60,7 +60,8 @@ impl<'a> System<'a> for RvSys {
 }
 
 pub fn rv_builder(rv: &Arc<Rv>, times: &[u8]) -> DispatcherBuilder<'static, 'static> {
-    let mut b = DispatcherBuilder::new();
+    // (every other width: a builder obtained through `Default`)
+    let mut b = if rv.width % 2 == 1 { DispatcherBuilder::default() } else { DispatcherBuilder::new() };
     for i in 0..rv.width {
         b.add(RvSys { id: i + 1, t: times[i % times.len()], rv: rv.clone() }, &format!("rv{}", i), &[]);
     }
